@@ -1,7 +1,7 @@
 CONSTANTS
   NS = 2
   NML = 1
-  WH = {1}
+  WH = {}
   WS = {}
   ParentCancels = FALSE
   DirectStops = FALSE
